@@ -595,6 +595,58 @@ func dischargeBounds(p *Prog, r *Resolver, rx map[string]*RegexVar, in ssa.Instr
 			}
 			return false, fmt.Sprintf("constant index %d without a dominating length check", k)
 		}
+		// (i') idiom (i) in a helper that receives the match slice, the
+		// pattern and the group name as parameters: decided at every static
+		// call site of the helper
+		if _, isPrm := strip(x.X).(*ssa.Parameter); isPrm {
+			fn := in.Parent()
+			nsite := 0
+			for _, caller := range p.AllRepoFuncs() {
+				for _, ci := range callsIn(caller) {
+					if staticCallee(ci.Common()) != fn {
+						continue
+					}
+					nsite++
+					nr := NewResolver(p).Bind(fn, ci)
+					mo := nr.Of(x.X)
+					mc, isCall := mo.V.(*ssa.Call)
+					if mo.K != "call" || !isCall || mo.Name != "(*regexp.Regexp).FindStringSubmatch" {
+						return false, "helper indexes a slice that at " + p.InstrPos(ci) + " is not the result of a pattern match (" + trimOrg(mo.String()) + ")"
+					}
+					rg := regexGlobalOfArg(mo, 0)
+					rv := rx[rg]
+					if rv == nil || rv.Tree == nil {
+						return false, "sub-match of a pattern that is not a package-level constant pattern (call at " + p.InstrPos(ci) + ")"
+					}
+					if !nonNilGuard(mc, ci) {
+						return false, "the match handed to the helper at " + p.InstrPos(ci) + " is not nil-checked (a non-matching line panics)"
+					}
+					io := nr.Of(x.Index)
+					if io.K == "const" {
+						if k, okK := io.ConstInt(); okK && k >= 0 && k <= int64(len(rv.Groups())) {
+							continue
+						}
+						return false, "constant sub-match index exceeds the groups of " + rg
+					}
+					if io.K != "call" || io.Name != "(*regexp.Regexp).SubexpIndex" {
+						return false, "sub-match indexed with " + trimOrg(io.String()) + " (call at " + p.InstrPos(ci) + ")"
+					}
+					ig := regexGlobalOfArg(io, 0)
+					name, isC := callArgOrg(io, 1).ConstString()
+					switch {
+					case ig != rg:
+						return false, "sub-match of " + rg + " indexed with SubexpIndex of another pattern (" + ig + ") at " + p.InstrPos(ci)
+					case !isC:
+						return false, "SubexpIndex with a non-constant group name at " + p.InstrPos(ci)
+					case !rv.HasGroup(name):
+						return false, "group \"" + name + "\" does not exist in " + rg + " (call at " + p.InstrPos(ci) + "): SubexpIndex returns -1 and the index panics"
+					}
+				}
+			}
+			if nsite > 0 {
+				return true, fmt.Sprintf("(i') at each of the %d call sites the slice is a nil-checked match of the pattern whose SubexpIndex of an existing group is the index", nsite)
+			}
+		}
 		return false, "index " + r.Of(x.Index).String() + " is not bounded by a recognised idiom"
 	case *ssa.Index:
 		if at, ok := x.X.Type().Underlying().(*types.Array); ok && isIntConst(x.Index) && x.Index.(*ssa.Const).Int64() < at.Len() {
